@@ -385,6 +385,7 @@ func (r *runner) exec(s *Step, g *lib.Rand) {
 			runtime.ReadMemStats(&m1)
 			if d := m1.TotalAlloc - m0.TotalAlloc; d > 32<<20 {
 				r.failf("storing nil under %s allocated %d MiB", s.K.N, d>>20)
+				farTripped = true
 			}
 		}
 		coq = fmt.Sprintf("SSet %s %s %s", setHowCoq(s.How), s.K.CoqKey(), s.V.CoqVal())
@@ -452,6 +453,7 @@ func (r *runner) exec(s *Step, g *lib.Rand) {
 		runtime.ReadMemStats(&m1)
 		if d := m1.TotalAlloc - m0.TotalAlloc; s.V.IsNil() && d > 32<<20 {
 			r.failf("table.insert(t, %d, nil) allocated %d MiB", s.I, d>>20)
+			farTripped = true
 		}
 		coq = fmt.Sprintf("SInsert %s %s", lib.CoqZ(s.I), s.V.CoqVal())
 	case "remove":
